@@ -10,6 +10,7 @@ package main
 // an expression none of the lemmas (nor the interval engine) proves is reported undecided.
 
 import (
+	"strings"
 	"fmt"
 	"go/token"
 	"go/types"
@@ -181,7 +182,7 @@ func sameSliceVal(a, b ssa.Value) bool {
 					}
 				}
 			case *ssa.Call:
-				if !(instrDominates(x, la) && instrDominates(x, lb)) {
+				if !(instrDominates(x, la) && instrDominates(x, lb)) && !callOnlyReads(x, al) {
 					return false
 				}
 			case *ssa.MakeClosure:
@@ -234,11 +235,55 @@ func sameSliceVal(a, b ssa.Value) bool {
 				}
 			}
 		case *ssa.Call:
-			if !(instrDominates(x, la) && instrDominates(x, lb)) {
+			if !(instrDominates(x, la) && instrDominates(x, lb)) && !callOnlyReads(x, al) {
 				return false
 			}
 		default:
 			return false
+		}
+	}
+	return true
+}
+
+// callOnlyReads: the call hands the address of local al to a module-local function that only reads through the
+// corresponding parameter (loads of it or of its fields; never stores, never passes it on).
+func callOnlyReads(c *ssa.Call, al *ssa.Alloc) bool {
+	h := c.Call.StaticCallee()
+	if h == nil || h.Blocks == nil || c.Call.IsInvoke() || !strings.HasPrefix(funcPkgPath(h), modPath) {
+		return false
+	}
+	var readOnly func(v ssa.Value, d int) bool
+	readOnly = func(v ssa.Value, d int) bool {
+		if d > 4 {
+			return false
+		}
+		for _, ref := range *v.Referrers() {
+			switch x := ref.(type) {
+			case *ssa.DebugRef:
+			case *ssa.UnOp:
+				if x.Op != token.MUL {
+					return false
+				}
+				// a loaded slice/pointer field could be written through; only value loads are followed no further
+			case *ssa.FieldAddr:
+				if !readOnly(x, d+1) {
+					return false
+				}
+			case *ssa.IndexAddr:
+				if !readOnly(x, d+1) {
+					return false
+				}
+			default:
+				return false
+			}
+		}
+		return true
+	}
+	for i, a := range c.Call.Args {
+		if a == ssa.Value(al) {
+			if i >= len(h.Params) || !readOnly(h.Params[i], 0) {
+				return false
+			}
 		}
 	}
 	return true
@@ -647,6 +692,14 @@ func provesLEPoly(env *IntEnv, E ssa.Value, extra int64, s ssa.Value, b *ssa.Bas
 		}
 		strict := op == token.LSS
 		y = stripIntConv(y)
+		// len(m) of a slice made in this function with a known length: compare against that length
+		if lc, ok := y.(*ssa.Call); ok {
+			if bi, okb := lc.Call.Value.(*ssa.Builtin); okb && bi.Name() == "len" {
+				if ms, okm := lc.Call.Args[0].(*ssa.MakeSlice); okm {
+					y = stripIntConv(ms.Len)
+				}
+			}
+		}
 		// x < len(s)  /  x <= len(s)
 		if isLenOf(y, s) {
 			u := polyOf(x, 0)
